@@ -97,6 +97,7 @@ type progResult struct {
 	outs     []outcome
 	budgetMs int64
 	mcGround, mcGeneric int
+	nBound              int // bound-method closures ($bound functions) in the program
 }
 
 var self string
@@ -211,7 +212,7 @@ func runProgram(dir string, jobs []string, fixedBudget time.Duration) progResult
 			case strings.HasPrefix(l, "LOAD ok "):
 				fmt.Sscanf(l, "LOAD ok %d %d %d", &pr.loadMs, &pr.funcs, &pr.instrs)
 			case strings.HasPrefix(l, "KINDS "):
-				fmt.Sscanf(l, "KINDS %d %d", &pr.mcGround, &pr.mcGeneric)
+				fmt.Sscanf(l, "KINDS %d %d %d", &pr.mcGround, &pr.mcGeneric, &pr.nBound)
 			case strings.HasPrefix(l, "BEGIN "):
 				inProgress = strings.TrimPrefix(l, "BEGIN ")
 			case strings.HasPrefix(l, "END "):
@@ -489,7 +490,7 @@ func main() {
 				rep.Count("error-kind:" + job + ":" + firstWords(o.msg, 6))
 			}
 			if o.status == "panic" || o.status == "crash" || o.status == "timeout" {
-				it.onDone(it, progResult{outs: []outcome{o}, loadMs: pr.loadMs, instrs: pr.instrs})
+				it.onDone(it, progResult{outs: []outcome{o}, loadMs: pr.loadMs, instrs: pr.instrs, nBound: pr.nBound})
 			}
 		}
 		rep.Count(fmt.Sprintf("instrs<=%d", bucket(pr.instrs)))
@@ -514,6 +515,9 @@ func main() {
 			} else if fs := fieldSensitiveOnly(it, o); fs != "" {
 				key = "C07f:fieldsens-nontermination"
 				what += " — " + fs
+			} else if strings.HasPrefix(o.job, "backtrace") && pr.nBound > 0 {
+				key = "C07h:backtrace-bound-method-closures"
+				what += fmt.Sprintf(" — the program has %d bound-method closures and the job is backtrace (finding C07h)", pr.nBound)
 			} else if cl := contextLimitOnly(it, o); cl != "" {
 				key = "C07g:calling-contexts-unbounded"
 				what += " — " + cl
